@@ -29,8 +29,10 @@ LEVEL_NOTE = ("Relative to C03: the curve methods ScalarBaseMult / ScalarMult / 
               "The retry branches r=0, r+k=n, s=0 cannot be reached through the API with honest hashing: covered by the theorem and by three vm_compute Examples on the "
               "model with crafted digests (Props/C01.v: first nonce sent back, result = the standard's pair for the next nonce). For d = n-1 ModInverse returns nil and "
               "Sm2Sign panics (probe against /repo; model: Panic, theorem C01_sign_invalid_key_panics); the property's domain is d in [1, n-2]. "
-              "'never share the same r' is proved as: equal r with equal e forces x([k1]G) = x([k2]G) mod n, and fresh calls read fresh stream positions; "
-              "no probability statement is made. If [s]G+[t]P is the point at infinity the code uses x = 0 (the standard is silent). "
+              "'never share the same r' is PARTIAL: proved are (a) fresh calls read fresh stream positions, (b) equal r with equal e forces k1 = k2, or k1 + k2 = n, or "
+              "abscissae differing by exactly n (C01_distinct_nonces_distinct_x, C01_same_r_nonce_cases_partial); that fresh random bytes make these events unlikely is a "
+              "probability statement about the reader and is not proved; the concurrent leg tests it on schedules that happen. The premises of the completeness theorems "
+              "are discharged in Props/SM2Premises.v (primality certificates, [n]G = O by computation, associativity proved). If [s]G+[t]P is the point at infinity the code uses x = 0 (the standard is silent). "
               "sm2.Verify(pub, hash, r, s) is the digest-level entry point: it takes the caller's bytes as the integer e without bounding them, so a "
               "33-byte 'hash' equal to e+n is accepted exactly when e is (the relation depends on e mod n only, theorem C01_verify_characterisation); "
               "the property speaks about messages and IDs (Sm2Verify / PublicKey.Verify hash them to 32 bytes), so this is outside it and only recorded here. "
